@@ -31,6 +31,7 @@ type VerifTaskEvent struct {
 	Task    uint64 // unique id of the task within the process
 	NodeKey string
 	NeedAll bool
+	HasErr  bool // the task carries an error (meaningful from VerifBodyDone on)
 }
 
 var verifTaskHook atomic.Value // func(VerifTaskEvent)
@@ -65,7 +66,7 @@ func verifPoint(p int, t *taskManager, ta *task) {
 	if ta.verifID == 0 {
 		ta.verifID = atomic.AddUint64(&verifTaskCounter, 1)
 	}
-	fn(VerifTaskEvent{Point: p, Manager: t.verifTM.id, Task: ta.verifID, NodeKey: ta.nodeKey, NeedAll: t.needAll})
+	fn(VerifTaskEvent{Point: p, Manager: t.verifTM.id, Task: ta.verifID, NodeKey: ta.nodeKey, NeedAll: t.needAll, HasErr: p >= VerifBodyDone && ta.err != nil})
 }
 
 // VerifSerialize / VerifDeserialize expose the checkpoint serializer.
